@@ -207,6 +207,8 @@ func (agent *Agent) healthCheck() {
 	for {
 		select {
 		case <-agent.ctx.Done():
+			timer.Stop()
+			return
 		case <-timer.Chan():
 			report := agent.calculateHealth()
 			if report != nil {
